@@ -8,17 +8,18 @@
 (***************************************************************************)
 EXTENDS Lowering
 
-CONSTANT Pairs      \* FALSE: single constructs x positions; TRUE: additionally 2-construct nestings
+CONSTANT Pairs,     \* FALSE: single constructs x positions; TRUE: additionally 2-construct nestings
+         SStride     \* label-first covering sample of the single programs (1 = all, see SingleProgsS)
 
 ClassCDs(shapes) == LET sq == SetToSeq(shapes) IN [i \in DOMAIN sq |-> ClassCD(sq[i])]
 FixedClassCDs == [i \in DOMAIN ClassShapes |-> ClassCD(ClassShapes[i])]
 WithShape(cds) == [i \in DOMAIN cds |-> cds[i] @@ [shape |-> [h |-> FALSE, ks |-> <<>>]]]
-AllCDs == WithShape(ExprConstructs) \o WithShape(StmtConstructs) \o FixedClassCDs
+AllCDs == WithShape(ExprConstructs) \o WithShape(StmtConstructs) \o FixedClassCDs \o WithShape(ObjConstructs)
 \* this run's share of the constructs (sharding by construct index keeps start-up cheap)
 Mine(cds) == {i \in DOMAIN cds : i % Shards = Shard}
 \* thorough: the 2-element class shapes (with and without heritage) are additional single constructs
 SingleCDs == IF Pairs THEN AllCDs \o ClassCDs(PairShapes) ELSE AllCDs
-Singles == SetToSeq(SingleProgs(SingleCDs, Mine(SingleCDs)))
+Singles == SetToSeq(SingleProgsS(SingleCDs, Mine(SingleCDs), SStride, Offset))
 InnerCDs == SelectSeq(WithShape(ExprConstructs) \o WithShape(StmtConstructs), LAMBDA cd : cd.name \in InnerNames)
 PairsSeq == IF Pairs THEN SetToSeq(PairProgs(AllCDs, InnerCDs, Mine(AllCDs), Stride, Offset)) ELSE <<>>
 NSingles == Len(Singles)
